@@ -132,6 +132,21 @@ CHECKS["C15"] = dict(
    note=S2NOTE + " Trusted additionally: vh_c10's request/jsonify driver. Known finding: tokens are not authenticated (well-formed forged tokens are accepted). Outside: grandchildren, more than one concurrent child, instance ids containing ':'.",
    design="4/C15")
 
+
+# additions of the third session, appended to the texts above (see DESIGN.md section 0)
+EXTRA = {
+ "C01": " Third session: $$.Execution.Input and $$ selections read by later states, and generated two-level fan-out machines (Parallel/Map roots, nested Parallel/Map, MaxConcurrency, Catch at three places, one failing leaf) compared with the reference interpreter under the canonical schedule.",
+ "C02": " After quiescence the engine's periodic time-out back-stop is invoked long after the time-out and must find nothing to do; scenarios added for execution time-outs, three-level nesting, queue starts without message ids, the back-stop meeting an already ended execution.",
+ "C03": " A further monitor requires that no timer of an ended execution stays armed (the uncancellable retry-delay timer is a recorded known finding); scenarios added for nested fan-out states entered after termination, empty Maps ending a Branch, ItemSelector failures.",
+ "C04": " Added: a retried Task around the crash, Catch/Choice/Wait chain, the same crash points with Redis-backed records that survive the crash, and the redelivered flag through the REAL blocking and asyncio transports (fake pika) down to TaskDispatcher.execute_task.",
+ "C05": " One-step kernels run the fan-out site and the join's batch window of a Map on a symbolic-length list (<= 48 / 96) and symbolic MaxConcurrency; generated two-level machines, a fan-out state entered twice in a loop, Map in Map with MaxConcurrency, falsy outputs (null is a recorded known finding).",
+ "C06": " Added: generated two-level machines with one failing leaf and Catchers at the nested state / root / leaf (first six scheduling decisions free in the quick tier), caught nested failure followed by an outer failure, three-level nesting, retried states sitting out their delay when a sibling fails.",
+ "C07": " Added whole runs: Map retry budget across MaxConcurrency batches, Catcher ResultPath on fan-out states, ItemSelector and join (ResultSelector) failures retried/caught.",
+ "C08": " Added: which deadline a timed-out Task blames (symnum, incl. events dispatched after the execution deadline), Wait/Task deadlines across a kill and restart on the virtual clock, fraction digits beyond six and lower case t/z (native cross-check).",
+ "C09": " Added: Redis-backed runs whose history is read back through the REST handlers of the engine's own and of a second process after every step, re-used execution names, StateEntered counts over retried Map runs.",
+ "C11": " Added: invariant fields must agree across all notifications of an execution; Redis-backed runs read through either process with cache invalidations delivered or pending (DescribeExecution, GetExecutionHistory, ListExecutions against the latest notification).",
+}
+
 NOT_YET = {}
 
 def main():
@@ -149,7 +164,7 @@ def main():
                 "evidence_file": "/verif/evidence/%s.json" % pid,
                 "replay_cmd_template": "./check %s --replay {path}" % pid,
                 "engine": "vf",
-                "level_claimed": {"category": "other", "text": c["text"], "design_ref": c["design"]},
+                "level_claimed": {"category": "other", "text": c["text"] + EXTRA.get(pid, ""), "design_ref": c["design"]},
                 "level_note": c["note"],
                 "technique": c["technique"],
             })
